@@ -174,7 +174,7 @@ var profiles = map[string]map[string]int{
 	"mix":  {"scan": 30, "tick": 12, "pod_arrive": 10, "pod_schedule": 8, "pod_finish": 8, "launch": 5, "register": 7, "cordon": 3, "ext_taint": 3, "ext_untaint": 1, "force": 3, "annotate": 3, "node_gone": 1, "asg_edit": 2, "restart": 1, "lag": 1, "shuffle": 2},
 	"down": {"scan": 35, "tick": 6, "pod_arrive": 3, "pod_schedule": 3, "pod_finish": 14, "launch": 3, "register": 8, "cordon": 2, "ext_taint": 1, "ext_untaint": 3, "force": 1, "annotate": 2, "node_gone": 0, "asg_edit": 2, "restart": 1, "lag": 0, "shuffle": 6},
 	"reap": {"scan": 30, "tick": 20, "pod_arrive": 3, "pod_schedule": 5, "pod_finish": 10, "launch": 2, "register": 4, "cordon": 4, "ext_taint": 8, "ext_untaint": 1, "force": 5, "annotate": 5, "node_gone": 1, "asg_edit": 1, "restart": 3, "lag": 0, "shuffle": 3},
-	"up":   {"scan": 32, "tick": 8, "pod_arrive": 18, "pod_schedule": 6, "pod_finish": 5, "launch": 5, "register": 8, "cordon": 2, "ext_taint": 6, "ext_untaint": 0, "force": 4, "annotate": 1, "node_gone": 0, "asg_edit": 2, "restart": 1, "lag": 0, "shuffle": 4},
+	"up":   {"scan": 32, "tick": 8, "pod_arrive": 18, "pod_schedule": 6, "pod_finish": 5, "launch": 5, "register": 8, "cordon": 2, "ext_taint": 6, "ext_untaint": 0, "force": 4, "annotate": 1, "node_gone": 0, "asg_edit": 6, "restart": 1, "lag": 0, "shuffle": 4},
 	"cycle-drain": {"scan": 36, "tick": 20, "pod_arrive": 0, "pod_schedule": 2, "pod_finish": 44, "launch": 0, "register": 2, "cordon": 0, "ext_taint": 0, "ext_untaint": 0, "force": 1, "annotate": 1, "node_gone": 0, "asg_edit": 0, "restart": 0, "lag": 0, "shuffle": 2},
 	"cycle-burst": {"scan": 40, "tick": 12, "pod_arrive": 22, "pod_schedule": 8, "pod_finish": 0, "launch": 1, "register": 3, "cordon": 0, "ext_taint": 0, "ext_untaint": 0, "force": 0, "annotate": 0, "node_gone": 0, "asg_edit": 0, "restart": 0, "lag": 0, "shuffle": 2},
 	"lock": {"scan": 38, "tick": 16, "pod_arrive": 14, "pod_schedule": 4, "pod_finish": 4, "launch": 4, "register": 6, "cordon": 5, "ext_taint": 4, "ext_untaint": 0, "force": 3, "annotate": 0, "node_gone": 0, "asg_edit": 2, "restart": 2, "lag": 0, "shuffle": 1},
@@ -387,8 +387,11 @@ func genStep(r *rand.Rand, w *world.World, o genOpts, nextID map[string]int, ste
 	case "node_gone":
 		return Event{Ev: "node_gone", N: pick()}
 	case "asg_edit":
-		if gs.Cfg.Auto || r.Intn(3) == 0 {
+		if gs.Cfg.Auto || r.Intn(3) > 0 {
 			mn := r.Intn(3)
+			if !gs.Cfg.Auto && r.Intn(2) == 0 { // keep the minimum, move the maximum around max_nodes
+				return Event{Ev: "asg_edit", G: g, A: gs.Asg.Min, B: gs.Asg.Desired + r.Intn(gs.Cfg.Max+3)}
+			}
 			return Event{Ev: "asg_edit", G: g, A: mn, B: mn + 1 + r.Intn(o.maxNodes+2)}
 		}
 		return Event{Ev: "shuffle", A: 1 + r.Intn(1000000)}
